@@ -610,7 +610,8 @@ class CPreProcessor:
         """Handle the '#' stringify operator.
 
         Take care of:
-        - single space between the tokens being stringified
+        - white space between the tokens being stringified becomes a single
+          space, tokens without white space in between are not separated
         - no spaces before first and after last token
         - escape double quotes of strings and backslash inside strings.
         """
@@ -621,7 +622,12 @@ class CPreProcessor:
             else:
                 return t.val
 
-        string_value = '"{}"'.format(" ".join(map(escape, snippet)))
+        parts = []
+        for token in snippet:
+            if parts and (token.space or token.first):
+                parts.append(" ")
+            parts.append(escape(token))
+        string_value = '"{}"'.format("".join(parts))
         return CToken("STRING", string_value, hash_token.space, False, loc)
 
     def concat(self, lhs, rhs):
